@@ -356,8 +356,26 @@ func c07set(c *an.Ctx) {
 		return
 	}
 	info := f.Info()
+	// the presence flags of lookups in a scope's variables: _, ok := sc.variables[name]
+	presentVars := map[string]bool{}
+	an.InspectOwn(f, func(n ast.Node) bool {
+		if as, isAs := n.(*ast.AssignStmt); isAs && len(as.Lhs) == 2 && len(as.Rhs) == 1 {
+			if ix, isIx := an.Unparen(as.Rhs[0]).(*ast.IndexExpr); isIx && p.FieldKey(info, ix.X) == "scope.variables" {
+				presentVars[an.Str(as.Lhs[1])] = true
+			}
+		}
+		return true
+	})
+	skipped := ""
 	x := p.NewExplorer(f, an.Hooks{
 		Branch: func(x *an.Explorer, cond ast.Expr, val bool, st *an.State) {
+			if id, ok := an.Unparen(cond).(*ast.Ident); ok && presentVars[id.Name] {
+				if val {
+					st.Set("absent", "")
+				} else {
+					st.Set("absent", "1")
+				}
+			}
 			// the walker ran off the end of the chain: <scope pointer> != nil is false (== nil is true)
 			if b, ok := an.Unparen(cond).(*ast.BinaryExpr); ok && (b.Op == token.NEQ || b.Op == token.EQL) {
 				xe, ye := an.Unparen(b.X), an.Unparen(b.Y)
@@ -372,6 +390,11 @@ func c07set(c *an.Ctx) {
 			}
 		},
 		PreAssign: func(x *an.Explorer, lhs, rhs ast.Expr, stmt ast.Node, st *an.State) {
+			if as, isAs := stmt.(*ast.AssignStmt); isAs && len(as.Lhs) == 2 && len(as.Rhs) == 1 {
+				if ix, isIx := an.Unparen(as.Rhs[0]).(*ast.IndexExpr); isIx && p.FieldKey(info, ix.X) == "scope.variables" {
+					st.Set("absent", "") // a new lookup: nothing known yet
+				}
+			}
 			if ix, ok := an.Unparen(lhs).(*ast.IndexExpr); ok && p.FieldKey(info, ix.X) == "scope.variables" {
 				if rebinding(x, st, ix) {
 					st.Set("stored", "rebind")
@@ -381,13 +404,25 @@ func c07set(c *an.Ctx) {
 			}
 			if p.FieldKey(info, rhs) == "scope.parent" {
 				st.Set("walked", "1")
+				// the walk leaves a scope only when the name is known to be absent from it: a scope that
+				// declares the name — whatever value it holds, nil included — is the one `=` rebinds
+				absent := st.Get("absent") == "1" // (a register: the flag's own scope may have ended by now)
+				for okName := range presentVars {
+					if an.FactIs(st, okName, false) {
+						absent = true
+					}
+				}
+				st.Set("absent", "")
+				if !absent && skipped == "" {
+					skipped = "setValue walks on to the parent scope on a path where the current scope may declare the name (its presence test is not known to have failed): an outer variable of the same name is assigned instead"
+				}
 			}
 		},
 	})
 	x.Run(nil)
 	c.States += x.Visited
 	ok := true
-	why := ""
+	why := skipped
 	sawErr, sawOK := false, false
 	for _, ex := range x.Exits {
 		if ex.Kind != an.ExitReturn || ex.Ret == nil || len(ex.Ret.Results) != 1 {
@@ -430,6 +465,9 @@ func c07set(c *an.Ctx) {
 	})
 	if ok && !(sawErr && sawOK && walks) {
 		ok, why = false, "setValue does not both rebind on a hit (walking parent scopes) and fail after the chain is exhausted"
+	}
+	if skipped != "" {
+		ok = false
 	}
 	c.Check(ok, "C07.set", "(*Runtime).setValue", f.Pos(), "`=` rebinds the innermost scope that declares the name, walks to the root and fails after it", why)
 }
